@@ -18,6 +18,9 @@ pub struct Case {
     /// query points on the (doubled) lattice
     pub queries: Vec<C>,
     pub xf: Xf,
+    /// representation noise for the value handed to geo (0 = none): a repeated vertex, an empty member
+    #[serde(default)]
+    pub noise: u64,
     #[serde(skip)]
     pub trusted: bool,
 }
@@ -73,8 +76,8 @@ impl Property for C12 {
     type Case = Case;
     const ID: &'static str = "C12";
     fn strategy(_tier: Tier) -> BoxedStrategy<Case> {
-        (scene_strategy(3), proptest::collection::vec((0u8..=255, 0u8..=255, any::<bool>()), 1..8), xf_strategy())
-            .prop_map(|(Scene { a, partners }, qs, xf)| {
+        (scene_strategy(3), proptest::collection::vec((0u8..=255, 0u8..=255, any::<bool>()), 1..8), xf_strategy(), prop_oneof![2 => Just(0u64), 1 => any::<u64>()])
+            .prop_map(|(Scene { a, partners }, qs, xf, noise)| {
                 // query points: lattice points of the grown bbox, and features of the partner geometries (coincidence bias)
                 let bb = a.bbox().unwrap_or(((0, 0), (4, 4)));
                 let pool: Vec<C> = partners.iter().flat_map(|p| p.coords()).chain(a.coords()).collect();
@@ -89,7 +92,7 @@ impl Property for C12 {
                         }
                     })
                     .collect();
-                Case { g: a, queries, xf, trusted: true }
+                Case { g: a, queries, xf, noise, trusted: true }
             })
             .boxed()
     }
@@ -122,7 +125,11 @@ impl Property for C12 {
         }
         let tn = c.g.type_name();
         obs.label(format!("type:{tn}"));
-        let gg = to_geo(&c.g, &c.xf);
+        let g_in = if c.noise != 0 { crate::conv::noisy(&c.g, c.noise) } else { c.g.clone() };
+        if g_in != c.g {
+            obs.label("noise:repeated-vertex-or-empty-member");
+        }
+        let gg = to_geo(&g_in, &c.xf);
         let loc = Located::new(&c.g);
         let prims = primitives(&c.g);
         let s = c.xf.scale();
@@ -149,7 +156,7 @@ impl Property for C12 {
                 }
             }
         }
-        let ctx = || format!("g={} xf={:?}", wkt(&c.g), c.xf);
+        let ctx = || format!("g={} xf={:?}", wkt(&g_in), c.xf);
 
         // ---- interior_point
         let ip_concrete = guard(std::panic::AssertUnwindSafe(|| with_concrete!(&gg, x => x.ip())));
